@@ -53,3 +53,8 @@ pub fn bad_index(ctx: &mut DeserializationContext<'_>, table: &[u8]) -> Result<u
 
 /// S1: mutable global state
 pub static mut BAD_COUNTER: u32 = 0;
+
+/// U7: the lifetime of the returned reference is chosen by the caller
+pub fn bad_unbounded<'r>(p: *const u8) -> &'r u8 {
+    unsafe { &*p }
+}
